@@ -167,6 +167,8 @@ def generate(rng, tier):
         else:
             ops.append({"op": "inplace", "h": h, "i": rng.randrange(64), "sym": rng.choice("+-*/"), "rhs": gen_rhs(rng, n)})
     for o in ops:
+        if o["op"] == "new" and o["kind"] == "vec" and o["nc"] > 1 and rng.random() < 0.25:
+            o["cdt"] = rng.choice([["f8", "f4", "f4"], ["f8", "f8", "f4"], ["f8", "f4", "f8"], ["f4", "f8", "f8"]])
         if o["op"] == "new" and o["unit"] in ("percent", "cm/m") and o["dtype"] in ("i8", "i4"):
             o["dtype"] = "f8"  # integers in a unit whose conversion factor is not an integer are outside the quantifier
     case = {"n": n, "ops": ops}
@@ -368,13 +370,17 @@ def execute(case, stats):
     def rtol_of(dtype):
         return 1e-6 if np.dtype(dtype).itemsize == 4 and np.dtype(dtype).kind == "f" else 1e-12
 
-    def mk_leaf(kind, nc, unit, dtype, vals):
+    def mk_leaf(kind, nc, unit, dtype, vals, cdt=None):
         if kind == "arr":
             v = np.array(vals[0][:n] + [1.0] * max(0, n - len(vals[0])), dtype=DT[dtype])
             real = osy.Array(values=v.copy(), unit=unit)
             o = G.new_arr(real, G.new_buf(v), np.arange(n), U.of(unit))
             return ("arr", o)
         comps = [np.array(vals[c][:n] + [1.0] * max(0, n - len(vals[c])), dtype=np.float64) * (c + 1) for c in range(nc)]
+        if cdt:
+            # components stored with different precisions (built from raw values)
+            comps = [c.astype(DT[cdt[i % len(cdt)]]) for i, c in enumerate(comps)]
+            stats.inc("probe.vector_with_components_of_different_dtypes")
         real = osy.Vector(*[c.copy() for c in comps], unit=unit)
         oc = []
         for c, name in zip(comps, "xyz"):
@@ -423,7 +429,7 @@ def execute(case, stats):
         try:
             if k == "new":
                 if len(G.handles) < MAXOBJ:
-                    G.handles.append(mk_leaf(op["kind"], op["nc"], op["unit"], op["dtype"], op["vals"]))
+                    G.handles.append(mk_leaf(op["kind"], op["nc"], op["unit"], op["dtype"], op["vals"], cdt=op.get("cdt")))
             elif k == "slice":
                 arrs = [h for h in G.handles if h[0] == "arr"]
                 if not arrs or len(G.handles) >= MAXOBJ:
@@ -666,8 +672,10 @@ def execute(case, stats):
                     if xdt.kind == "i" and any(np.any(v != np.round(v)) for v in xnew):
                         continue
                     # representable in x's dtype (the statement's precondition): no integer overflow, no float32 overflow
-                    lim = float(np.iinfo(xdt).max) if xdt.kind == "i" else float(np.finfo(xdt).max) * 1e-3
-                    if any(np.any(np.abs(v) > lim) for v in xnew):
+                    def lim_of(dt_):
+                        return float(np.iinfo(dt_).max) if dt_.kind == "i" else float(np.finfo(dt_).max) * 1e-3
+
+                    if any(np.any(np.abs(v) > lim_of(G.bufs[G.arr[o]["buf"]].dtype)) for o, v in zip(xl, xnew)):
                         continue
                 # snapshots for the differential clause and for "y untouched"
                 try:
@@ -701,7 +709,8 @@ def execute(case, stats):
                             V(step, op, "identity", {"inplace_returned_new_array": True})
                         # write through the model views, then unit of every leaf that was updated in place
                         y32 = yleaves is not None and any(G.bufs[G.arr[o]["buf"]].dtype == np.float32 for o in yleaves)
-                        tol_op = 1e-6 if (y32 or rtol_of(xdt) > 1e-12) else 1e-12
+                        x32 = any(G.bufs[G.arr[o]["buf"]].dtype == np.float32 for o in xl)
+                        tol_op = 1e-6 if (y32 or x32 or rtol_of(xdt) > 1e-12) else 1e-12
                         # absolute part: rounding of the operands (cancellation in sums of 32-bit numbers)
                         mag = max([float(np.max(np.abs(q))) for q in xold + conv] + [0.0])
                         atol_op = tol_op * mag
